@@ -39,30 +39,56 @@ Proof.
 Qed.
 
 (* tracking semantics: what a served request does to the tracked set of its connection *)
+Lemma mem_del x y l : mem x (del_res y l) = mem x l && negb (Nat.eqb x y).
+Proof.
+  unfold del_res, mem. induction l as [|z l IH]; simpl; [reflexivity|].
+  destruct (Nat.eqb_spec z y) as [->|N]; simpl.
+  - rewrite IH. destruct (Nat.eqb_spec x y) as [->|N']; simpl.
+    + rewrite !andb_false_r. reflexivity.
+    + rewrite !andb_true_r. reflexivity.
+  - rewrite IH. destruct (Nat.eqb_spec x z) as [->|N']; simpl; [|reflexivity].
+    destruct (Nat.eqb_spec z y); [contradiction|reflexivity].
+Qed.
+Lemma mem_add x y l : mem x (add_res y l) = Nat.eqb x y || mem x l.
+Proof.
+  unfold add_res. destruct (mem y l) eqn:M.
+  - destruct (Nat.eqb_spec x y) as [->|N]; simpl; [rewrite M|]; reflexivity.
+  - unfold mem. simpl. reflexivity.
+Qed.
 Lemma tracking_semantics cf st c t r :
   active (conns st c) = true ->
   mem r (c_tracked (conns (fst (step cf st (Req c t (Track r)))) c)) = true /\
   mem r (c_tracked (conns (fst (step cf st (Req c t (Untrack r)))) c)) = false /\
   (forall r', r' <> r ->
-     mem r' (c_tracked (conns (fst (step cf st (Req c t (Track r)))) c)) = mem r' (c_tracked (conns st c)) /\
-     mem r' (c_tracked (conns (fst (step cf st (Req c t (Untrack r)))) c)) = mem r' (c_tracked (conns st c))).
+     mem r' (c_tracked (conns (fst (step cf st (Req c TPlain (Track r)))) c)) = mem r' (c_tracked (conns st c)) /\
+     mem r' (c_tracked (conns (fst (step cf st (Req c TPlain (Untrack r)))) c)) = mem r' (c_tracked (conns st c))).
 Proof.
-  intros A. simpl step. rewrite A. simpl fst. rewrite !upd_same.
-  assert (T : c_tracked (touch (conns st c) t) = c_tracked (conns st c)) by (destruct t; reflexivity).
-  simpl. rewrite !T. clear T. set (l := c_tracked (conns st c)).
-  assert (D : forall x y, mem x (del_res y l) = mem x l && negb (Nat.eqb x y)).
-  { intros x y. unfold del_res, mem. induction l as [|z l IH]; simpl; [reflexivity|].
-    destruct (Nat.eqb_spec z y) as [->|N]; simpl.
-    - rewrite IH. destruct (Nat.eqb_spec x y) as [->|N']; simpl.
-      + rewrite !andb_false_r. reflexivity.
-      + rewrite !andb_true_r. reflexivity.
-    - rewrite IH. destruct (Nat.eqb_spec x z) as [->|N']; simpl; [|reflexivity].
-      destruct (Nat.eqb_spec z y); [contradiction|reflexivity]. }
+  intros A. simpl step. rewrite A. simpl fst. rewrite !upd_same. unfold serve. simpl.
   split; [|split].
-  - unfold add_res. destruct (mem r l) eqn:M; [exact M|]. unfold mem. simpl. rewrite Nat.eqb_refl. reflexivity.
-  - rewrite D, Nat.eqb_refl. apply andb_false_r.
-  - intros r' N. split.
-    + unfold add_res. destruct (mem r l) eqn:M; [reflexivity|]. unfold mem. simpl.
-      destruct (Nat.eqb_spec r' r); [contradiction|reflexivity].
-    + rewrite D. destruct (Nat.eqb_spec r' r); [contradiction|]. apply andb_true_r.
+  - rewrite mem_add, Nat.eqb_refl. reflexivity.
+  - rewrite mem_del, Nat.eqb_refl. apply andb_false_r.
+  - intros r' N. rewrite mem_add, mem_del. destruct (Nat.eqb_spec r' r); [contradiction|].
+    simpl. rewrite andb_true_r. split; reflexivity.
 Qed.
+
+(* a resource tracked by a constructor while a request is being served belongs to that request's connection:
+   a session-mode class constructs on the first request of the connection that needs it (and never again), a percall
+   class on every request *)
+Lemma ctor_tracking cf st c r a :
+  active (conns st c) = true ->
+  (c_inst (conns st c) = false ->
+     mem r (c_tracked (conns (fst (step cf st (Req c (TSession (Some r)) Nop))) c)) = true /\
+     c_inst (conns (fst (step cf st (Req c (TSession (Some r)) a))) c) = true) /\
+  (c_inst (conns st c) = true ->
+     conns (fst (step cf st (Req c (TSession (Some r)) Nop))) c = conns st c) /\
+  mem r (c_tracked (conns (fst (step cf st (Req c (TPercall (Some r)) Nop))) c)) = true.
+Proof.
+  intros A. simpl step. rewrite A. simpl fst. rewrite !upd_same. unfold serve. simpl.
+  split; [|split].
+  - intros I. rewrite I. simpl. rewrite mem_add, Nat.eqb_refl. split; [reflexivity|]. destruct a; reflexivity.
+  - intros I. rewrite I. reflexivity.
+  - rewrite mem_add, Nat.eqb_refl. reflexivity.
+Qed.
+
+Lemma source_context_bound_first : ctx_client_bound_before_construction = true.
+Proof. vm_compute; reflexivity. Qed.
